@@ -126,6 +126,36 @@ let seq_stream oc =
     emit_c09 oc ~stream:"c09-seq" [ M.NFor (None, bs "x", var "v", [ print (var "x"); text ";" ], None); text "." ] [ ("v", v) ])
     catalogue
 
+(* the sequence of a for tag written as a filter expression: what the chain yields is what is iterated, also when
+   the value it starts from is undefined or null (default then supplies the sequence) *)
+let filtered_seq_stream oc =
+  let flt e f args = M.EFilter (e, bs f, args) in
+  let arr xs = M.EArr xs in
+  let body = [ print (var "x"); text ":"; print (attr (var "loop") "index"); text "/"; print (attr (var "loop") "length"); text ";" ] in
+  let seqs = [
+    flt (var "missing") "default" [ arr [ lit_str "a"; lit_str "b"; lit_str "c" ] ];
+    flt (var "nv") "default" [ lit_str "hey" ];
+    flt (flt (var "missing") "default" [ arr [ lit_int 3; lit_int 1; lit_int 2 ] ]) "sort" [];
+    flt (flt (var "nv") "default" [ arr [ lit_int 1; lit_int 2 ] ]) "reverse" [];
+    flt (var "missing") "default" [ arr [] ];
+    flt (var "nv") "default" [ var "lst" ];
+    flt (var "lst") "default" [ arr [ lit_str "d" ] ];
+    flt (var "emp") "default" [ arr [ lit_str "d"; lit_str "e" ] ];
+    flt (var "lst") "reverse" [];
+    flt (flt (var "lst") "sort" []) "reverse" [];
+    flt (var "missing") "keys" [];
+    flt (var "nv") "reverse" [];
+    flt (attr (var "mp") "zz") "default" [ arr [ lit_int 7 ] ];
+    flt (flt (var "missing") "default" [ lit_str "ab" ]) "upper" [] ] in
+  let ctx = [ ("nv", M.VNull); ("lst", M.VList (M.LAny, [ G.vint 2; G.vint 1 ])); ("emp", M.VList (M.LAny, [])); ("mp", M.VMap (M.MAny, [ (G.vstr "a", G.vint 1) ])) ] in
+  List.iter (fun sq ->
+    emit_c09 oc ~stream:"c09-filtered-seq" [ M.NFor (None, bs "x", sq, body, Some [ text "none" ]); text "." ] ctx;
+    emit_c09 oc ~stream:"c09-filtered-seq" [ M.NFor (Some (bs "k"), bs "x", sq, [ print (var "k"); text "=" ] @ body, None); text "."; print (var "x") ] ctx;
+    (* the same value through a set: must iterate alike *)
+    emit_c09 oc ~stream:"c09-filtered-seq" [ M.NSet (bs "sq", sq); M.NFor (None, bs "x", var "sq", body, Some [ text "none" ]); text "." ] ctx;
+    emit_c09 oc ~stream:"c09-filtered-seq" [ M.NFor (None, bs "o", M.EArr [ lit_int 1; lit_int 2 ], [ M.NFor (None, bs "x", sq, body, Some [ text "none" ]); text "|" ], None) ] ctx)
+    seqs
+
 (* a set makes the assigned value visible to everything after it -- also when that value is null: the name is then
    defined and null, whatever it was before (a variable of the render context, a loop variable, an earlier set) *)
 let null_stream oc =
@@ -176,6 +206,20 @@ let loopref_stream oc =
           ^ "<" ^ value fo ~i ~n ^ "=" ^ value fo ~i ~n ^ ">") n in
         emit_exp ns [] exp ~seqlen:(max n m)
       end) fields) fields
+  done done;
+  (* kept beyond the end of its loop: the variable still describes the finished loop (its last iteration) after other
+     loops, of other lengths, have run *)
+  for n = 1 to 4 do for m = 0 to 5 do
+    if m <> n then begin
+      let later = [ M.NFor (None, bs "c", seq m 40, [ text "." ], None) ] in
+      let shows = List.concat_map (fun f -> [ show "seen" f; text "," ]) fields in
+      let ns = [ M.NFor (None, bs "a", seq n 10, [ M.NSet (bs "seen", var "loop") ], None) ] @ later @ [ text "|" ] @ shows
+               @ [ M.NFor (None, bs "d", seq 2 50, [ M.NFor (None, bs "e", seq m 60, [ text "-" ], None); show "seen" "index"; show "seen" "length" ], None) ] in
+      let last = List.map (fun f -> value f ~i:(n - 1) ~n ^ ",") fields in
+      let exp = String.make m '.' ^ "|" ^ String.concat "" last
+                ^ cat (fun _ -> String.make m '-' ^ string_of_int n ^ string_of_int n) 2 in
+      emit_exp ns [] exp ~seqlen:(max n m)
+    end
   done done;
   (* assigned after a first nested loop, read in a second one; three levels *)
   for n = 1 to 3 do for m = 1 to 3 do
@@ -526,6 +570,7 @@ let run ~seed ~tier oc =
     lazy_stream oc;
     seq_stream oc;
     null_stream oc;
+    filtered_seq_stream oc;
     loopref_stream oc;
     empty_branch_stream oc;
     range_stream oc ~wide:thorough;
